@@ -1,8 +1,8 @@
 SPECIFICATION Spec
 CONSTANTS
   MaxKids = 2
-  Places = {"direct", "wrapped", "nested"}
-  Slot2Places = {"direct", "wrapped", "nested"}
+  Places = {"direct", "wrapped", "nested", "encwrap"}
+  Slot2Places = {"direct", "wrapped", "nested", "encwrap"}
   Slot2Sigs = {"none", "own", "copied", "att", "attIdp"}
   RIds = {"r1", "rX", "a1"}
   RSigs = {"none", "att", "attIdp", "gen", "lifted", "reloc", "malformed"}
